@@ -39,9 +39,9 @@ def pctDecode (s : Bytes) : Option Bytes := pctDecodeAux .norm s
 
 /-- The path THIS request carries: the path component of its target
 (`splitTarget` — characterised by `C16_target_split_shape`), percent-decoded. -/
-def specPath (target : Bytes) : Option (Bytes × Bytes) :=
+def specPath (e : UrlEnv) (target : Bytes) : Option (Bytes × Bytes) :=
   if hasCTL target then none
-  else match splitTarget target with
+  else match splitTarget e target with
     | none => none
     | some (host, rp) => (pctDecode rp).map fun p => (host, p)
 
@@ -53,7 +53,7 @@ def specCtx (cf : Conf) (r : Req) : Option Ctx :=
   | .dcu => some (mkCtxConn cf .dnscrypt none)
   | .dot => some (mkCtxConn cf .tls (some r.sni))
   | .doq => some (mkCtxConn cf .quic (some r.sni))
-  | .h1 | .h2 | .hp => (specPath r.target).map fun hp => mkCtxHTTP cf r hp.1 hp.2
+  | .h1 | .h2 | .hp => (specPath (envOf cf r.ipLitOK) r.target).map fun hp => mkCtxHTTP cf r hp.1 hp.2
 
 /-- What the client got. -/
 inductive Cls where
